@@ -201,6 +201,23 @@ def handle (prop op : String) (args : List Sexp) (impl : Sexp) : Reply :=
       | list [atom "err", s] => .error (decSet s)
       | _ => .error []
     ⟨enc m == enc implR, enc m, impl != sPanic && evalCheckedOk x pv implR, "spec"⟩
+  | "eval.of", [e, _, v, d] =>
+    -- the conversions keep the function and the inputs (C01), so the converted object must evaluate
+    -- like the expression in all three modes
+    let x := Fn.E (decExpr e); let pv := decPVal v; let dd := decBool d
+    let enc (r : Except (List String) Bool) : Sexp := match r with
+      | .ok b => sOk (encBool b)
+      | .error s => list [atom "err", encSet (sortDedup s)]
+    let m := list [atom "L", encBool ((decExpr e).eval pv dd), encBool ((decExpr e).eval pv false), enc ((decExpr e).evalChecked pv)]
+    (match impl with
+     | list [atom "L", r1, r2, r3] =>
+       let implR : Except (List String) Bool := match r3 with
+         | list [atom "ok", b] => .ok (decBool b)
+         | list [atom "err", s] => .error (decSet s)
+         | _ => .error []
+       let ok := evalDefaultOk x pv dd (decBool r1) && evalDefaultOk x pv false (decBool r2) && evalCheckedOk x pv implR
+       ⟨ok, m, ok, "converted-form-evaluates-like-the-expression"⟩
+     | _ => ⟨false, m, false, "converted-form-evaluates-like-the-expression"⟩)
   -- C03 connectives ---------------------------------------------------------------------------
   | "probe", [_, _] =>
     -- a sentence of the language (a tower or a chain) parsed in a child process: it must come back
